@@ -904,9 +904,27 @@ def unstructure_to_dict(instance: Any) -> dict[str, Any]:
     # Register unstructure hooks for this dataclass and all nested dataclasses
     if dataclasses.is_dataclass(cls):
         _register_unstructure_hooks_recursively(cls)
+    else:
+        # Containers (e.g. a list of models): register hooks for the dataclasses they hold,
+        # otherwise their fields would be emitted under Python names instead of wire keys
+        _register_unstructure_hooks_for_container(instance)
 
     result: dict[str, Any] = converter.unstructure(instance)
     return result
+
+
+def _register_unstructure_hooks_for_container(value: Any, _depth: int = 0) -> None:
+    """Register unstructure hooks for dataclass instances found inside lists, tuples and dicts."""
+    if _depth > 32:
+        return
+    if dataclasses.is_dataclass(value) and not isinstance(value, type):
+        _register_unstructure_hooks_recursively(type(value))
+    elif isinstance(value, (list, tuple, set, frozenset)):
+        for item in value:
+            _register_unstructure_hooks_for_container(item, _depth + 1)
+    elif isinstance(value, dict):
+        for item in value.values():
+            _register_unstructure_hooks_for_container(item, _depth + 1)
 
 
 __all__ = [
